@@ -134,6 +134,9 @@ def shards(tier):
     for kind in U.PDU_KINDS:
         for idxs in cfg_parts(4):
             items.append({"mode": "indep", "kind": kind, "cfgs": idxs, "tier": tier})
+    for ci in range(len(SIZE_CFGS)):
+        for part in range(4):
+            items.append({"mode": "sizes", "ci": ci, "part": part, "parts": 4, "tier": tier})
     depth = HIST_DEPTH[tier]
     for si, start in enumerate(STARTS):
         firsts = list(range(N_SET if start[0] == "none" else len(EVENTS)))
@@ -638,10 +641,47 @@ def run_hist(rec, item):
 
 
 # ======================================================================================================================
+# ======================================================================================================================
+# sizes: the PDU data field length is a 16-bit field the factory may use for slicing; every carry pattern of its two octets
+# ======================================================================================================================
+SIZE_CFGS = [{"crc": c, "large": lg, "idw": iw, "seqw": sw, "mode": 0, "segctrl": sc}
+             for (c, lg, iw, sw, sc) in ((0, 0, 1, 1, 0), (1, 0, 1, 1, 1), (0, 1, 2, 4, 0), (1, 1, 8, 8, 1), (0, 0, 4, 1, 1), (1, 0, 1, 8, 0))]
+
+
+def size_values(tier):
+    """file data lengths: every length 0..1100 (all values of the low length octet under high octets 0..4), and around
+    every multiple of 256 of the data field length up to the largest PDU (window -40..+8, which contains every carry of
+    low octet + header length for all header lengths <= 28), for high octets 5..16 and 31, 32, 63, 64, 127, 128, 254, 255"""
+    vals = set(range(0, 1101))
+    highs = list(range(5, 17)) + [31, 32, 63, 64, 127, 128, 254, 255] + ([] if tier == "quick" else list(range(17, 31)))
+    for h in highs:
+        vals.update(range(h * 256 - 40, h * 256 + 9))
+    return sorted(v for v in vals if v >= 0)
+
+
+def run_sizes(rec, item):
+    cfg = SIZE_CFGS[item["ci"]]
+    vals = size_values(item["tier"])
+    n = 0
+    unit = U.UNITS["FileDataPdu"]
+    for i, ln in enumerate(vals):
+        if i % item["parts"] != item["part"]:
+            continue
+        overhead = (8 if cfg["large"] else 4) + (2 if cfg["crc"] else 0)
+        if ln + overhead > 65535:
+            continue
+        recipe = {"cfg": dict(cfg), "params": {"offset": 0x01020304, "data": ["shaped", ln, i % 4], "md": None}}
+        factory_case(rec, "FileDataPdu", recipe, holder_too=(i % 16 == 0))
+        n += 1
+    rec.count("factory_size_sweep_cases", n)
+
+
 def run_shard(item):
     rec = Rec(PROPERTY, item)
     mode = item.get("mode", "matrix")
-    if mode == "matrix":
+    if mode == "sizes":
+        run_sizes(rec, item)
+    elif mode == "matrix":
         run_matrix(rec, item)
     elif mode == "indep":
         run_indep(rec, item)
